@@ -210,7 +210,12 @@ def evaluate_case(case):
     insts = case.get("instances") or make_instances(rng, fact_preds, text, case.get("n_inst", 4))
     rec["compared"] = 0
     rec["skipped"] = 0
+    budget = float(os.environ.get("VERIF_CASE_SECONDS", "0") or 0) or (25.0 if os.environ.get("VERIF_TIER_EFFECTIVE", "quick") == "quick" else 90.0)
     for inst in insts:
+        if not case.get("instances") and time.time() - t0 > budget:
+            # a case must not hold the whole pool: the instances not reached are counted as skipped
+            rec["skipped"] += 1
+            continue
         try:
             a = oracle.shown(src_text + "\n" + inst, terms_only=terms_only) if use_shown else oracle.solve_text(src_text + "\n" + inst, project)
         except oracle.Skip:
@@ -280,6 +285,8 @@ def minimise(rec, max_steps=60):
 
     base_keys = [None]
     steps = 0
+    # shrinking is a convenience for the reader and for precise attribution; it must not dominate a quick run
+    deadline = time.time() + (15.0 if os.environ.get("VERIF_TIER_EFFECTIVE", "quick") == "quick" else 90.0)
     stms = [str(s) for s in parse(best["program"])]
     stms = [s for s in stms if s != "#program base."]
     inst = best.get("instance", "")
@@ -289,9 +296,11 @@ def minimise(rec, max_steps=60):
     best = r0
     base_keys[0] = r0["_keys"]
     changed = True
-    while changed and steps < max_steps:
+    while changed and steps < max_steps and time.time() < deadline:
         changed = False
         for k in range(len(stms)):
+            if time.time() > deadline:
+                break
             steps += 1
             cand = stms[:k] + stms[k + 1:]
             if not cand:
@@ -305,6 +314,8 @@ def minimise(rec, max_steps=60):
             continue
         facts = [f + "." for f in re.split(r"\.\s*", inst) if f.strip()]
         for k in range(len(facts)):
+            if time.time() > deadline:
+                break
             steps += 1
             cand = " ".join(facts[:k] + facts[k + 1:])
             r = fails("\n".join(stms), cand)
